@@ -377,13 +377,14 @@ func (s *Sys) Apply(op string) (out, class string, viols []bfs.Viol) {
 	if before.supply != after.supply {
 		add("total-supply-changed", fmt.Sprintf("%s: %s -> %s", op, before.supply, after.supply))
 	}
-	if votingBefore && !inVoting() {
+	ended := votingBefore && !inVoting()
+	if ended {
 		// the voting period ended in this block's EndBlock: the tally removed the votes and the deposit was refunded or
 		// burned — effects of the block, not of the transaction; the comparisons below look at the rest
 		s.votes = map[string]string{}
 		for _, o := range []*obs{&before, &after} {
 			o.votes = map[string]string{}
-			for _, k := range []string{"gov", "collector+distribution", "depositor"} {
+			for _, k := range []string{"gov", "collector+distribution", "depositor", "u1"} {
 				delete(o.bal, k)
 			}
 		}
@@ -446,6 +447,9 @@ func (s *Sys) Apply(op string) (out, class string, viols []bfs.Viol) {
 	}
 	if path == "fwd" && after.slot == before.slot {
 		add("forwarder-state-lost-on-success", op)
+	}
+	if ended {
+		s.votes = map[string]string{} // a vote cast in the very block whose EndBlock tallies is removed with the others
 	}
 	return "ok", class, append(viols, s.compareModel(add)...)
 }
